@@ -1,4 +1,4 @@
-import ScrapliModel.Options
+import ScrapliModel.OptionsSpec
 /-!
 Helper lemmas for C19: permutation invariance of a monadic fold over pairwise-commuting steps,
 pointwise reading of option application, table facts lifted from `decide` over the generated table.
@@ -231,9 +231,6 @@ theorem mem_allOpts (o : Opt) : o ∈ allOpts := by
 theorem forall_opt_of_all {p : Opt → Bool} (h : allOpts.all p = true) (o : Opt) : p o = true :=
   List.all_eq_true.1 h o (mem_allOpts o)
 
-/-- every option (no failing option among them) -/
-def AllValid (opts : List OptInst) : Prop := ∀ o ∈ opts, errOf (spec o.opt) o = none
-
 theorem failsOn_none_of_valid {T : Target} {o : OptInst} (h : errOf (spec o.opt) o = none) :
     failsOn T o = none := by
   unfold failsOn
@@ -241,13 +238,6 @@ theorem failsOn_none_of_valid {T : Target} {o : OptInst} (h : errOf (spec o.opt)
   split
   · exact h
   · rfl
-
-/-- result of one pass when nothing fails -/
-def afterPass (T : Target) (opts : List OptInst) (c : Config) : Config :=
-  fun f => fieldAfter T opts f (c f)
-
-def afterPasses (ts : List Target) (opts : List OptInst) (c : Config) : Config :=
-  ts.foldl (fun c T => afterPass T opts c) c
 
 theorem pass_valid {T : Target} {opts : List OptInst} (c : Config) (hv : AllValid opts) :
     pass T opts c = .ok (afterPass T opts c) :=
@@ -367,12 +357,6 @@ theorem setField_other {L f : Field} (c : Config) (v : Val) (h : f ≠ L) : setF
 theorem setField_same (L : Field) (c : Config) (v : Val) : setField c L v L = v := by
   simp [setField]
 
-/-- the objects `generic.NewDriver` builds (depends on the transport type / custom transport the options select) -/
-def genericReached (opts : List OptInst) (c : Config) : List Target :=
-  [.generic_Driver, .transport_Args] ++
-    transportTargets (afterPass .transport_Args opts
-      (fillLogger .generic_Driver_Logger (afterPass .generic_Driver opts c))) ++ [.channel_Channel]
-
 theorem genericReached_nodup (opts : List OptInst) (c : Config) : (genericReached opts c).Nodup := by
   unfold genericReached
   generalize (afterPass .transport_Args opts (fillLogger .generic_Driver_Logger (afterPass .generic_Driver opts c))) = c2
@@ -456,20 +440,9 @@ open Scrapli Scrapli.Gen.Options
 
 /-! ## declarative reading of the constructors (`spec*`) -/
 
-/-- decidable form of `Compat` (used by the model driver to evaluate the hypothesis per case) -/
-def compatB (a b : OptInst) : Bool :=
-  disjointKeys a b &&
-    (match errOf (spec a.opt) a, errOf (spec b.opt) b with
-     | some x, some y => x == y
-     | _, _ => true)
-
 theorem compatB_iff (a b : OptInst) : compatB a b = true ↔ Compat a b := by
   unfold compatB Compat
   cases ha : errOf (spec a.opt) a <;> cases hb : errOf (spec b.opt) b <;> simp
-
-def pairwiseB {α : Type} (r : α → α → Bool) : List α → Bool
-  | [] => true
-  | a :: l => l.all (r a) && pairwiseB r l
 
 theorem pairwiseB_iff {α : Type} (r : α → α → Bool) (l : List α) :
     pairwiseB r l = true ↔ l.Pairwise (fun a b => r a b = true) := by
@@ -477,16 +450,8 @@ theorem pairwiseB_iff {α : Type} (r : α → α → Bool) (l : List α) :
   | nil => simp [pairwiseB]
   | cons a l ih => simp [pairwiseB, List.pairwise_cons, ih, List.all_eq_true]
 
-def allValidB (opts : List OptInst) : Bool := opts.all fun o => (errOf (spec o.opt) o).isNone
-
 theorem allValidB_iff (opts : List OptInst) : allValidB opts = true ↔ AllValid opts := by
   simp [allValidB, AllValid, List.all_eq_true, Option.isNone_iff_eq_none]
-
-/-- `generic.NewDriver`, declaratively: each field is computed on its own -/
-def specGeneric (opts : List OptInst) (c : Config) : Config := fun f =>
-  if f = .generic_Driver_Logger then
-    fillLogger .generic_Driver_Logger (afterPass .generic_Driver opts c) .generic_Driver_Logger
-  else if f.target ∈ genericReached opts c then fieldAfter f.target opts f (c f) else c f
 
 theorem constructGeneric_eq_spec {opts : List OptInst} (c : Config) (hv : AllValid opts) :
     constructGeneric opts c = .ok (specGeneric opts c) := by
@@ -526,16 +491,6 @@ theorem specGeneric_unreached {opts : List OptInst} {c : Config} {f : Field}
     · exact this.2.2 h
   simp [hl, hn]
 
-/-- `network.NewDriver`, declaratively -/
-def specNetwork (opts : List OptInst) (c : Config) : Except Err Config :=
-  let dp := fieldAfter .network_Driver opts .network_Driver_DefaultDesiredPriv (c .network_Driver_DefaultDesiredPriv)
-  let pl := fieldAfter .network_Driver opts .network_Driver_PrivilegeLevels (c .network_Driver_PrivilegeLevels)
-  if dp == [[]] || pl.isEmpty then .error .badOption
-  else .ok fun f =>
-    if f = .channel_Channel_PromptPattern then pl.map privPattern
-    else if f.target = .network_Driver then fieldAfter .network_Driver opts f (c f)
-    else specGeneric opts c f
-
 theorem constructNetwork_eq_spec {opts : List OptInst} (c : Config) (hv : AllValid opts) :
     constructNetwork opts c = specNetwork opts c := by
   unfold constructNetwork
@@ -568,20 +523,6 @@ theorem constructNetwork_eq_spec {opts : List OptInst} (c : Config) (hv : AllVal
         rw [specGeneric_unreached (Or.inl ht)]
       · simp only [ht, if_false]
         exact afterPass_other opts _ ht
-
-/-- `netconf.NewDriver`, declaratively (options = the caller's followed by `withNetconfConnection(true)`) -/
-def specNetconf (opts : List OptInst) (c : Config) : Config :=
-  let opts' := opts ++ [netconfConnectionOpt]
-  let g := specGeneric opts' c
-  fun f =>
-    if f = .channel_Channel_PromptPattern then [Gen.Netconf.v1Dot0Delim]
-    else if f = .netconf_Driver_TransportType then
-      fieldAfter .netconf_Driver opts' f (g .generic_Driver_TransportType)
-    else if f = .netconf_Driver_Logger then
-      (let v := fieldAfter .netconf_Driver opts' f (g .generic_Driver_Logger)
-       if v == [tokNil] then [tokNoopLogger] else v)
-    else if f.target = .netconf_Driver then fieldAfter .netconf_Driver opts' f (c f)
-    else g f
 
 theorem constructNetconf_eq_spec {opts : List OptInst} (c : Config)
     (hv : AllValid (opts ++ [netconfConnectionOpt])) :
